@@ -29,11 +29,22 @@ use zipora::memory::{
 };
 
 const HEADER: &str = r#"From ZV.Common Require Import Base Run.
-From ZV.C07 Require Import Model.
+From ZV.C07 Require Import Model ModelFive Cases.
 Open Scope N_scope.
+Definition case_t := xcase.
+Definition ok := xok.
 "#;
 
-struct Ctx { sum: Summary, shards: CoqShards, budget: usize, impl_bins: Vec<u64>, out: String }
+struct Ctx { sum: Summary, shards: CoqShards, budget: usize, impl_bins: Vec<u64>, out: String, used: HashMap<&'static str, usize>, thorough: bool }
+impl Ctx {
+    /// per-cell budget of Coq-evaluated cases (quick tier: about 1500 in total)
+    fn room(&mut self, key: &'static str, force: bool) -> bool {
+        let cap = match key { "lockfree" => 380, "fixedcap" => 170, "bump" => 260, "five" => 300, "threadlocal" => 140, "tiered" => 110, "secure" => 110, _ => 0 }
+                  * if self.thorough { 7 } else { 1 };
+        let n = self.used.entry(key).or_insert(0);
+        if force || (*n < cap && self.shards.len() < self.budget) { *n += 1; true } else { false }
+    }
+}
 
 // ------------------------------------------------------------------------------------------------
 // pools under test behind one interface
@@ -58,6 +69,8 @@ trait Put {
     fn scope_end(&mut self) {}
     /// the request size the pool actually serves for a request of `size` (fixed-chunk pools ignore the size)
     fn effective(&self, size: usize) -> usize { size }
+    /// called once after every operation of the history (pools record their statistics here)
+    fn note(&mut self) {}
     /// finding class an overlap / out-of-range failure of this pool falls in, if any
     fn overlap_class(&self) -> Option<&'static str> { None }
 }
@@ -89,6 +102,7 @@ fn drive(cx: &mut Ctx, cell: &str, cj: &Value, put: &mut dyn Put, ops: &[Vec<u64
     let mut scope_depth = 0usize;
     macro_rules! bad { ($class:expr, $($a:tt)*) => {{ cx.sum.fail(cell, $class, cj.clone(), &format!($($a)*)); return None; }}; }
     for (n, op) in ops.iter().enumerate() {
+        if n > 0 { put.note(); }
         let t = op.get(0).copied().unwrap_or(9);
         let a = op.get(1).copied().unwrap_or(0);
         let b = op.get(2).copied().unwrap_or(0);
@@ -172,6 +186,7 @@ fn drive(cx: &mut Ctx, cell: &str, cj: &Value, put: &mut dyn Put, ops: &[Vec<u64
                 bad!(None, "after op {} {:?}: byte {} of live block #{} [{:#x},+{}) changed", n, op, i, l.id, l.addr, l.len); } }
         }
     }
+    if !ops.is_empty() { put.note(); }
     while scope_depth > 0 { live.retain(|l| l.scope != scope_depth); put.scope_end(); scope_depth -= 1; }
     // final full verification, then release everything (RAII guards drop here too)
     for l in &live {
@@ -310,7 +325,7 @@ impl Drop for BumpPut { fn drop(&mut self) { while self.scopes.pop().is_some() {
 
 // ---------------- five-level family (offsets, memory not reachable through the API) ----------------
 enum Five { L1(NoLockingPool), L2(MutexBasedPool), L3(LockFreePool), L4(ThreadLocalPool), L5(FixedCapacityPool), Ad(AdaptiveFiveLevelPool) }
-struct FivePut { p: Five, cfg: FiveLevelPoolConfig, cap: usize, h: HashMap<u64, (MemOffset, usize)>, alias: bool }
+struct FivePut { p: Five, cfg: FiveLevelPoolConfig, cap: usize, h: HashMap<u64, (MemOffset, usize)>, alias: bool, stats: Vec<(usize, usize, Option<usize>)> }
 fn off_value(o: &MemOffset) -> usize {
     let s = format!("{:?}", o);
     s.chars().filter(|c| c.is_ascii_digit()).collect::<String>().parse::<usize>().unwrap_or(usize::MAX)
@@ -333,6 +348,12 @@ impl Put for FivePut {
     fn must_refuse(&self, size: usize) -> bool { size > self.cap }
     fn cfg_align(&self) -> usize { self.cfg.alignment }
     fn overlap_class(&self) -> Option<&'static str> { if self.alias { Some("five_tl_offset_alias") } else { None } }
+    fn note(&mut self) {
+        // stats(): used_memory, fragment_size; remaining_capacity() where the pool has it
+        let (st, rem) = match &self.p { Five::L1(p) => (p.stats(), None), Five::L2(p) => (p.stats(), None), Five::L3(p) => (p.stats(), None),
+                                        Five::L4(p) => (p.stats(), None), Five::L5(p) => (p.stats(), Some(p.remaining_capacity())), Five::Ad(p) => (p.stats(), None) };
+        self.stats.push((st.used_memory, st.fragment_size, rem));
+    }
 }
 fn five_config(preset: u64, align: usize, cap: usize, fast: usize, arena: usize, fixed: usize) -> FiveLevelPoolConfig {
     match preset {
@@ -489,7 +510,7 @@ fn run_case(cx: &mut Ctx, c: &Value, force: bool) {
                 Err(p) => { cx.sum.fail(cell, None, c.clone(), &format!("LockFreeMemoryPool::new panicked: {}", p)); return; } };
             let mut put = LfPut { pool: Arc::new(pool), msize, h: HashMap::new(), raii: u(c, "raii") != 0, foreign_buf: vec![0u64; 2048] };
             if let Some(obs) = drive(cx, cell, c, &mut put, &ops) {
-                if force || cx.shards.len() < cx.budget {
+                if cx.room("lockfree", force) {
                     // offsets relative to the first successful allocation
                     let first = ops.iter().zip(obs.iter()).find(|(o, r)| o[0] == 0 && r.is_some()).map(|(_, r)| r.unwrap()).unwrap_or(0);
                     let mut cops = vec![]; let mut exp = vec![];
@@ -503,7 +524,7 @@ fn run_case(cx: &mut Ctx, c: &Value, force: bool) {
                             _ => {}
                         }
                     }
-                    let term = format!("CLf {} {} [{}] [{}]", coq_n_list(cx.impl_bins.iter().map(|&x| x as u128)), msize, cops.join("; "), exp.join("; "));
+                    let term = format!("XOld (CLf {} {} [{}] [{}])", coq_n_list(cx.impl_bins.iter().map(|&x| x as u128)), msize, cops.join("; "), exp.join("; "));
                     cx.shards.push(term, c.clone());
                 }
             }
@@ -518,7 +539,7 @@ fn run_case(cx: &mut Ctx, c: &Value, force: bool) {
             let mut put = FcPut { h: HashMap::new(), pool: Box::new(pool), cfg };
             if let Some(obs) = drive(cx, cell, c, &mut put, &ops) {
                 // model comparison (pools of at most 2000 blocks keep the Coq terms small)
-                if nb <= 2000 && (force || cx.shards.len() < cx.budget) {
+                if nb <= 2000 && cx.room("fixedcap", force) {
                     let first = ops.iter().zip(obs.iter()).find(|(o, r)| o[0] == 0 && r.is_some()).map(|(_, r)| r.unwrap()).unwrap_or(0);
                     let mut cops = vec![]; let mut exp = vec![];
                     for (o, r) in ops.iter().zip(obs.iter()) {
@@ -528,7 +549,7 @@ fn run_case(cx: &mut Ctx, c: &Value, force: bool) {
                             _ => {}
                         }
                     }
-                    cx.shards.push(format!("CFc {} {} {} [{}] [{}]", mx, al, nb, cops.join("; "), exp.join("; ")), c.clone());
+                    cx.shards.push(format!("XOld (CFc {} {} {} [{}] [{}])", mx, al, nb, cops.join("; "), exp.join("; ")), c.clone());
                 }
             }
         }
@@ -548,7 +569,7 @@ fn run_case(cx: &mut Ctx, c: &Value, force: bool) {
                     let mut d = 0; let mut okk = true;
                     for o in &ops { match o[0] { 3 => { d += 1; if d > 1 { okk = false; } } 4 => { if d == 0 { okk = false; } else { d -= 1; } } 0 => {} _ => { if d > 0 { okk = false; } } } }
                     okk && d == 0 };
-                if shape_ok && (force || cx.shards.len() < cx.budget) {
+                if shape_ok && cx.room("bump", force) {
                     let base = obs[0].unwrap();
                     let mut cops: Vec<String> = vec![]; let mut exp = vec![]; let mut inner: Option<Vec<String>> = None;
                     for (o, r) in ops.iter().zip(obs.iter()) {
@@ -561,36 +582,68 @@ fn run_case(cx: &mut Ctx, c: &Value, force: bool) {
                             _ => {}
                         }
                     }
-                    let term = format!("CBump {} {} [{}] [{}]", cap, base, cops.join("; "), exp.join("; "));
+                    let term = format!("XOld (CBump {} {} [{}] [{}])", cap, base, cops.join("; "), exp.join("; "));
                     cx.shards.push(term, c.clone());
                 }
             }
         }
         "five" => {
             let level = u(c, "level");
-            let cell = format!("five_level/{}", ["NoLockingPool", "MutexBasedPool", "LockFreePool", "ThreadLocalPool", "FixedCapacityPool", "AdaptiveFiveLevelPool"][level.min(5) as usize]);
-            cx.sum.eval(&cell, &key, nontrivial); cx.sum.cell_status(&cell, "S-only");
+            let sub = u(c, "sublevel");
             let cfg = five_config(u(c, "preset"), u(c, "align") as usize, u(c, "cap") as usize, u(c, "fast") as usize, u(c, "arena") as usize, u(c, "fixed") as usize);
             let cfg2 = cfg.clone();
+            // the member of the family the case exercises (for AdaptiveFiveLevelPool::new it depends on the machine,
+            // so it is read back from current_level() below)
+            let ad_level = |sub: u64| [ConcurrencyLevel::SingleThread, ConcurrencyLevel::MultiThreadMutex, ConcurrencyLevel::MultiThreadLockFree, ConcurrencyLevel::ThreadLocal, ConcurrencyLevel::FixedCapacity][((sub - 1) % 5) as usize];
             let made = guarded(move || -> Result<Five, String> { Ok(match level {
                 0 => Five::L1(NoLockingPool::new(cfg2).map_err(|e| e.to_string())?),
                 1 => Five::L2(MutexBasedPool::new(cfg2).map_err(|e| e.to_string())?),
                 2 => Five::L3(LockFreePool::new(cfg2).map_err(|e| e.to_string())?),
                 3 => Five::L4(ThreadLocalPool::new(cfg2).map_err(|e| e.to_string())?),
                 4 => Five::L5(FixedCapacityPool::new(cfg2).map_err(|e| e.to_string())?),
-                _ => { let sub = u(c, "sublevel");
-                       if sub == 0 { Five::Ad(AdaptiveFiveLevelPool::new(cfg2).map_err(|e| e.to_string())?) }
-                       else { let l = [ConcurrencyLevel::SingleThread, ConcurrencyLevel::MultiThreadMutex, ConcurrencyLevel::MultiThreadLockFree, ConcurrencyLevel::ThreadLocal, ConcurrencyLevel::FixedCapacity][((sub - 1) % 5) as usize];
-                              Five::Ad(AdaptiveFiveLevelPool::with_level(cfg2, l).map_err(|e| e.to_string())?) } }
+                _ => { if sub == 0 { Five::Ad(AdaptiveFiveLevelPool::new(cfg2).map_err(|e| e.to_string())?) }
+                       else { Five::Ad(AdaptiveFiveLevelPool::with_level(cfg2, ad_level(sub)).map_err(|e| e.to_string())?) } }
             }) });
-            let p = match made { Ok(Ok(p)) => p, Ok(Err(_)) => { cx.sum.dist("pool_new_refused"); return; }
+            // model kind: 0 NoLock, 1 Mutex, 2 LockFree, 3 ThreadLocal (not modelled), 4 FixedCap; None = not known before construction
+            let kind_of = |l: ConcurrencyLevel| match l { ConcurrencyLevel::SingleThread => 0u64, ConcurrencyLevel::MultiThreadMutex => 1, ConcurrencyLevel::MultiThreadLockFree => 2,
+                                                           ConcurrencyLevel::ThreadLocal => 3, ConcurrencyLevel::FixedCapacity => 4 };
+            let kind: Option<u64> = match (&made, level) {
+                (Ok(Ok(Five::Ad(a))), _) => Some(kind_of(a.current_level())),
+                (_, 0..=4) => Some(level),
+                (_, _) if sub != 0 => Some(kind_of(ad_level(sub))),
+                _ => if cfg.fixed_capacity.is_some() { Some(4) } else { None },
+            };
+            let is_tl = kind == Some(3);
+            let cell = if level >= 5 { format!("five_level/AdaptiveFiveLevelPool{}", if is_tl { "(ThreadLocal)" } else { "" }) }
+                       else { format!("five_level/{}", ["NoLockingPool", "MutexBasedPool", "LockFreePool", "ThreadLocalPool", "FixedCapacityPool"][level as usize]) };
+            cx.sum.eval(&cell, &key, nontrivial);
+            if is_tl { cx.sum.cell_status(&cell, "S-only"); }
+            // the model's configuration: the FixedCapacityPool owns max_capacity = fixed_capacity.unwrap_or(initial_capacity)
+            let mcap = if kind == Some(4) { cfg.fixed_capacity.unwrap_or(cfg.initial_capacity) } else { cfg.initial_capacity };
+            let mcfg = format!("(mkFC {} {} {} {})", ["KNoLock", "KMutex", "KLockFree", "KMutex", "KFixedCap"][kind.unwrap_or(0) as usize], cfg.alignment, mcap, cfg.max_fast_block_size);
+            let modelled = !is_tl && kind.is_some();
+            let p = match made { Ok(Ok(p)) => p,
+                Ok(Err(_)) => { cx.sum.dist("pool_new_refused");
+                                if modelled && cx.room("five", force) { cx.shards.push(format!("X5 {} false false [] []", mcfg), c.clone()); }
+                                return; }
                 Err(p) => { cx.sum.fail(&cell, None, c.clone(), &format!("constructor panicked: {}", p)); return; } };
             let cap = match (&p, cfg.fixed_capacity) { (Five::L5(_), Some(f)) => f, (Five::L4(_), _) => cfg.initial_capacity.max(cfg.arena_size),
                                                         (Five::Ad(_), f) => cfg.initial_capacity.max(cfg.arena_size).max(f.unwrap_or(0)), _ => cfg.initial_capacity };
-            let is_tl = match &p { Five::L4(_) => true, Five::Ad(a) => a.current_level() == ConcurrencyLevel::ThreadLocal, _ => false };
             let alias = five_tl_alias_class(is_tl, &cfg, &ops);
-            let mut put = FivePut { p, cfg, cap, h: HashMap::new(), alias };
-            drive(cx, &cell, c, &mut put, &ops);
+            let direct_fixed = matches!(&p, Five::L5(_));
+            let mut put = FivePut { p, cfg, cap, h: HashMap::new(), alias, stats: vec![] };
+            if let Some(obs) = drive(cx, &cell, c, &mut put, &ops) {
+                if modelled && put.stats.len() == ops.len() && cx.room("five", force) {
+                    let mut cops = vec![]; let mut exp = vec![];
+                    for ((o, r), st) in ops.iter().zip(obs.iter()).zip(put.stats.iter()) {
+                        match o[0] { 0 => cops.push(format!("A5 {}", o[1])), 1 => cops.push(format!("F5 {}", o[1])), _ => continue }
+                        exp.push(coq_oz(r));
+                        exp.push(format!("Some {}%Z", st.0)); exp.push(format!("Some {}%Z", st.1));
+                        if let Some(rem) = st.2 { exp.push(format!("Some {}%Z", rem)); }
+                    }
+                    cx.shards.push(format!("X5 {} true {} [{}] [{}]", mcfg, coq_bool(direct_fixed), cops.join("; "), exp.join("; ")), c.clone());
+                }
+            }
         }
         "threadlocal" => {
             let cell = "ThreadLocalMemoryPool";
@@ -750,13 +803,15 @@ fn gen_case(r: &mut Rng, which: u64, bins: &[u64]) -> Value {
         3 => { // five-level family
             let level = r.below(6);
             let preset = *r.pick(&[0u64, 0, 0, 0, 1, 2, 3, 4]);
-            let align = *r.pick(&[8u64, 8, 16, 32, 64]);
-            let cap = *r.pick(&[256u64, 1024, 4096, 65536]);
+            // alignments below 4 cannot hold the 4-byte free-list link, capacities above u32::MAX cannot be addressed by a
+            // MemOffset: the constructors must refuse both (never hand out blocks)
+            let align = *r.pick(&[8u64, 8, 8, 16, 32, 64, 4, 4, 2, 1]);
+            let cap = if r.chance(1, 40) { *r.pick(&[(1u64 << 32) + 8, 1 << 32, u32::MAX as u64]) } else { *r.pick(&[256u64, 1024, 4096, 65536]) };
             let fast = *r.pick(&[64u64, 256, 1024, 4096]);
             let arena = *r.pick(&[512u64, 2048, 8192, 1 << 16]);
             let fixed = if level == 4 || r.chance(1, 4) { *r.pick(&[128u64, 1024, 4096]) } else { 0 };
             let pcap = match preset { 1 => 1 << 20, 2 => 8 << 20, 3 => 512 << 10, 4 => 16 << 20, _ => if fixed > 0 && level >= 4 { fixed } else { cap } };
-            let cl: Vec<u64> = (1..=8).map(|k| k * align).chain([fast - align, fast, fast + align, 2 * fast]).collect();
+            let cl: Vec<u64> = (1..=8).map(|k| k * align).chain([fast.saturating_sub(align).max(1), fast, fast + align, 2 * fast]).collect();
             let n = r.range(3, 60);
             json!({"cell": "five", "level": level, "sublevel": r.below(6), "preset": preset, "align": align, "cap": cap, "fast": fast, "arena": arena, "fixed": fixed,
                    "ops": gen_ops(r, n, &cl, pcap, true, false, &[1])})
@@ -857,9 +912,11 @@ fn child(args: &Args) {
     let mut cx = Ctx {
         sum: Summary::new("C07", "histories of allocate(size[,align]) / free(k-th live block) / free(foreign pointer) / arena scope begin-end, 3..70 ops, per pool type and configuration (presets and small custom capacities so that exhaustion, recycling and arena turnover happen); sizes drawn around every size-class boundary (c-9..c+8), around the fast-bin threshold, around the capacity, and u32/usize extremes; every live block carries a position-dependent pattern checked after every operation; non-trivial = history with at least two allocations"),
         shards: CoqShards::new(HEADER, 150),
-        budget: if args.thorough { 9000 } else { 1300 },
+        budget: if args.thorough { 9000 } else { 1500 },
         impl_bins: read_impl_bins(),
         out: args.out.clone(),
+        used: HashMap::new(),
+        thorough: args.thorough,
     };
     if let Some(f) = &args.replay {
         let v: Value = serde_json::from_str(&std::fs::read_to_string(f).expect("replay file")).expect("json");
